@@ -9,12 +9,14 @@ import (
 	"context"
 	"crypto/rand"
 	"crypto/x509"
+	"encoding/json"
 	"encoding/pem"
 	"fmt"
 	"math/big"
 	"os"
 	"path/filepath"
 	"strings"
+	"sync"
 	"time"
 
 	"github.com/notaryproject/notation-go/dir"
@@ -48,6 +50,98 @@ type Input struct {
 	DirKind   string  `json:"dirKind"` // missing | dir | symlinkToDir | file
 	Entries   []Entry `json:"entries"`
 	Decoys    bool    `json:"decoys"`
+	Ctx       CtxSpec `json:"ctx"`
+}
+
+// CtxSpec says what the context handed to GetCertificates does during the call.
+// Kind: background | endedBefore | endsAtPoll | timeout | cancelledAfter ("" = background).
+type CtxSpec struct {
+	Kind     string
+	N        int  // endsAtPoll: number of polls that still see a live context; timeout / cancelledAfter: microseconds
+	Deadline bool // the end is DeadlineExceeded (true) or Canceled (false)
+}
+
+func (s CtxSpec) MarshalJSON() ([]byte, error) {
+	k := s.Kind
+	if k == "" {
+		k = "background"
+	}
+	return json.Marshal(struct {
+		Kind     string `json:"kind"`
+		N        int    `json:"n"`
+		Deadline bool   `json:"deadline"`
+	}{k, s.N, s.Deadline})
+}
+
+func (s CtxSpec) background() bool { return s.Kind == "" || s.Kind == "background" }
+
+// pollCtx is a context that is live for its first `live` polls (calls of Err, Done or Deadline,
+// from any goroutine) and ended from then on - so the end can be placed at every position of a
+// load deterministically.
+type pollCtx struct {
+	mu     sync.Mutex
+	live   int
+	polls  int
+	closed bool
+	done   chan struct{}
+	err    error
+}
+
+func (p *pollCtx) poll() bool {
+	p.mu.Lock()
+	defer p.mu.Unlock()
+	p.polls++
+	if p.polls > p.live && !p.closed {
+		p.closed = true
+		close(p.done)
+	}
+	return p.closed
+}
+func (p *pollCtx) Err() error {
+	if p.poll() {
+		return p.err
+	}
+	return nil
+}
+func (p *pollCtx) Done() <-chan struct{} { p.poll(); return p.done }
+func (p *pollCtx) Deadline() (time.Time, bool) {
+	ended := p.poll()
+	if p.err != context.DeadlineExceeded {
+		return time.Time{}, false
+	}
+	if ended {
+		return time.Now().Add(-time.Second), true
+	}
+	return time.Now().Add(time.Hour), true
+}
+func (p *pollCtx) Value(any) any { return nil }
+
+// makeCtx builds the context of a case; the returned function releases it.
+func makeCtx(s CtxSpec) (context.Context, func()) {
+	switch s.Kind {
+	case "", "background":
+		return context.Background(), func() {}
+	case "endedBefore":
+		if s.Deadline {
+			return context.WithDeadline(context.Background(), time.Now().Add(-time.Minute))
+		}
+		ctx, cancel := context.WithCancel(context.Background())
+		cancel()
+		return ctx, cancel
+	case "endsAtPoll":
+		p := &pollCtx{live: s.N, done: make(chan struct{}), err: context.Canceled}
+		if s.Deadline {
+			p.err = context.DeadlineExceeded
+		}
+		return p, func() {}
+	case "timeout":
+		return context.WithTimeout(context.Background(), time.Duration(s.N)*time.Microsecond)
+	case "cancelledAfter":
+		ctx, cancel := context.WithCancel(context.Background())
+		t := time.AfterFunc(time.Duration(s.N)*time.Microsecond, cancel)
+		return ctx, func() { t.Stop(); cancel() }
+	}
+	panic("unknown context kind " + s.Kind)
 }
 
 type Obs struct {
@@ -175,6 +269,16 @@ func buildWorld(c *common.Ctx) (*world, error) {
 		Key: common.PoolKey(c.CacheDir, "RSA-2048")}).Cert
 	if err := add("rsa root", rsaRoot, true, true, true, true); err != nil {
 		return nil, err
+	}
+	// a root and its successor after a key roll-over: different certificates, byte-identical subject;
+	// and a re-issued intermediate with the subject of the first one
+	for _, tag := range []string{"rolled-over root", "rolled-over root"} {
+		if err := add(tag, mint(tag, true, true, true, true), true, true, true, true); err != nil {
+			return nil, err
+		}
+	}
+	if n := len(w.pool); !bytes.Equal(w.pool[n-1].cert.RawSubject, w.pool[n-2].cert.RawSubject) || bytes.Equal(w.pool[n-1].cert.Raw, w.pool[n-2].cert.Raw) {
+		return nil, fmt.Errorf("the rolled-over roots do not share their subject")
 	}
 	for k := 0; k < 3; k++ {
 		cert := mint(fmt.Sprintf("decoy %d", k), true, true, true, true)
@@ -441,7 +545,10 @@ func (w *world) materialise(caseRoot string, in Input) (string, error) {
 	return root, nil
 }
 
-func (w *world) runLoad(c *common.Ctx, n int, in Input) (Obs, error) {
+// runLoad returns the observation of the load under test and, when that load ran under a context
+// that can end, the observation of a following load of the same store under context.Background()
+// through the same trust store value (an abandoned load must leave nothing behind).
+func (w *world) runLoad(c *common.Ctx, n int, in Input) (Obs, *Obs, error) {
 	// most trees live on tmpfs (five times faster); every eighth one on the file system of c.WorkDir
 	base := c.WorkDir
 	if w.fast != "" && n%8 != 0 {
@@ -451,7 +558,7 @@ func (w *world) runLoad(c *common.Ctx, n int, in Input) (Obs, error) {
 	defer os.RemoveAll(caseRoot)
 	root, err := w.materialise(caseRoot, in)
 	if err != nil {
-		return Obs{}, err
+		return Obs{}, nil, err
 	}
 	ts := truststore.NewX509TrustStore(dir.NewSysFS(root))
 	// One trust store value lives as long as a verifier: loads of OTHER stores through the same
@@ -484,14 +591,21 @@ func (w *world) runLoad(c *common.Ctx, n int, in Input) (Obs, error) {
 		}
 		return out
 	}
-	certs, err := ts.GetCertificates(context.Background(), truststore.Type(in.StoreType), in.Name)
+	ctx, release := makeCtx(in.Ctx)
+	certs, err := ts.GetCertificates(ctx, truststore.Type(in.StoreType), in.Name)
+	release()
 	o := Obs{Ok: err == nil, Certs: ids(certs)}
 	// a second load of the same store through the same value must give the same answer
+	// (unless the first one failed under a context that could end)
 	certs2, err2 := ts.GetCertificates(context.Background(), truststore.Type(in.StoreType), in.Name)
-	if (err2 == nil) != o.Ok || fmt.Sprint(ids(certs2)) != fmt.Sprint(o.Certs) {
+	o2 := Obs{Ok: err2 == nil, Certs: ids(certs2)}
+	if (o2.Ok != o.Ok || fmt.Sprint(o2.Certs) != fmt.Sprint(o.Certs)) && (o.Ok || in.Ctx.background()) {
 		o.Certs = append(o.Certs, unknownCert) // not repeatable: reported as a foreign certificate
 	}
-	return o, nil
+	if in.Ctx.background() {
+		return o, nil, nil
+	}
+	return o, &o2, nil
 }
 
 // ---- generators ----------------------------------------------------------------------------
@@ -517,12 +631,21 @@ func (w *world) emitLoad(c *common.Ctx, n *int, in Input, tag string) error {
 		}
 	}
 	in.Op = "load"
-	o, err := w.runLoad(c, *n, in)
+	o, after, err := w.runLoad(c, *n, in)
 	*n++
 	if err != nil {
 		return err
 	}
 	c.Emit(in, o)
+	if after != nil {
+		in2 := in
+		in2.Ctx = CtxSpec{}
+		c.Emit(in2, *after)
+		c.Count("stream=load-after-a-load-under-an-ending-context")
+		c.Count("context=" + in.Ctx.Kind)
+	} else {
+		c.Count("context=background")
+	}
 	c.Count("stream=" + tag)
 	if o.Ok {
 		c.Count("load=ok")
@@ -741,8 +864,119 @@ func (w *world) random(c *common.Ctx, n *int, count int) error {
 			}
 		}
 		c.Count(fmt.Sprintf("faults=%d", faults))
+		if c.Rand.Intn(4) == 0 {
+			in.Ctx = randomCtx(c, len(in.Entries))
+		}
 		if err := w.emitLoad(c, n, in, "random"); err != nil {
 			return err
+		}
+	}
+	return nil
+}
+
+func randomCtx(c *common.Ctx, files int) CtxSpec {
+	switch c.Rand.Intn(8) {
+	case 0:
+		return CtxSpec{Kind: "endedBefore", Deadline: c.Rand.Intn(2) == 0}
+	case 1:
+		return CtxSpec{Kind: "timeout", N: c.Rand.Intn(400), Deadline: true}
+	case 2:
+		return CtxSpec{Kind: "cancelledAfter", N: c.Rand.Intn(400)}
+	default:
+		return CtxSpec{Kind: "endsAtPoll", N: c.Rand.Intn(3*files + 3), Deadline: c.Rand.Intn(2) == 0}
+	}
+}
+
+// spoil turns entry e into a bad entry of the given kind (bad = a certificate unacceptable for the type)
+func spoil(e Entry, kind string, bad CertFlags) Entry {
+	switch kind {
+	case "garbage":
+		e.ParseOk, e.Enc = false, "garbage"
+	case "sub-directory":
+		e.Kind, e.Enc = "dir", "dir"
+	case "symlink":
+		e.Kind, e.Enc = "symlink", "toFile"
+	case "empty-file":
+		e.Certs, e.Enc = []CertFlags{}, "empty"
+	case "unacceptable-certificate":
+		e.Certs = append(append([]CertFlags{}, e.Certs...), bad)
+	}
+	return e
+}
+
+var spoilKinds = []string{"garbage", "sub-directory", "symlink", "empty-file", "unacceptable-certificate"}
+
+// contexts: multi-file stores - all good, or with one bad entry at every position of the
+// directory order - loaded under contexts that have ended before the call or end at every
+// possible poll, in both flavours; plus a sample of real timers on a store that takes a while to load.
+func (w *world) contexts(c *common.Ctx, n *int) error {
+	maxFiles := 5
+	if c.Thorough() {
+		maxFiles = 7
+	}
+	for ti, t := range validTypes {
+		good, bad := w.split(t)
+		for nf := 2; nf <= maxFiles; nf++ {
+			// created in reverse order of their names
+			var base []Entry
+			for k := nf - 1; k >= 0; k-- {
+				cs := []CertFlags{good[(k+ti)%len(good)]}
+				if k%2 == 1 {
+					cs = append(cs, good[(k+ti+3)%len(good)])
+				}
+				base = append(base, file1(fmt.Sprintf("f%d.pem", k), parsableEncs[k%len(parsableEncs)], cs...))
+			}
+			variants := [][]Entry{base}
+			for pos := 0; pos < nf; pos++ {
+				for _, sk := range spoilKinds {
+					v := append([]Entry{}, base...)
+					v[nf-1-pos] = spoil(v[nf-1-pos], sk, bad[(pos+ti)%len(bad)])
+					variants = append(variants, v)
+				}
+			}
+			for vi, v := range variants {
+				specs := []CtxSpec{{Kind: "endedBefore"}, {Kind: "endedBefore", Deadline: true}}
+				for k := 0; k <= 2*nf+2; k++ {
+					if c.Thorough() {
+						specs = append(specs, CtxSpec{Kind: "endsAtPoll", N: k}, CtxSpec{Kind: "endsAtPoll", N: k, Deadline: true})
+					} else {
+						specs = append(specs, CtxSpec{Kind: "endsAtPoll", N: k, Deadline: (k+vi)%2 == 0})
+					}
+				}
+				for _, sp := range specs {
+					in := Input{StoreType: t, Name: "ctx-store", DirKind: "dir", Entries: v, Decoys: vi%3 == 0, Ctx: sp}
+					if err := w.emitLoad(c, n, in, "context-positions"); err != nil {
+						return err
+					}
+				}
+			}
+		}
+	}
+	// real timers: a store of 12 files with three certificates each takes long enough to load
+	// for deadlines of some 10..1000 microseconds to fall inside the loop
+	good, bad := w.split("ca")
+	var big []Entry
+	for k := 0; k < 12; k++ {
+		big = append(big, file1(fmt.Sprintf("g%02d.pem", k), parsableEncs[k%2], good[k%len(good)], good[(k+5)%len(good)], good[(k+9)%len(good)]))
+	}
+	lastBad := append([]Entry{}, big...)
+	lastBad[11] = spoil(lastBad[11], "garbage", bad[0])
+	midBad := append([]Entry{}, big...)
+	midBad[6] = spoil(midBad[6], "sub-directory", bad[0])
+	reps := 1
+	if c.Thorough() {
+		reps = 6
+	}
+	for rep := 0; rep < reps; rep++ {
+		for _, us := range []int{0, 1, 2, 5, 10, 20, 30, 40, 50, 60, 80, 100, 120, 150, 200, 250, 300, 400, 500, 700, 1000, 1500, 2000, 3000} {
+			for _, kind := range []string{"timeout", "cancelledAfter"} {
+				for _, v := range [][]Entry{big, lastBad, midBad} {
+					in := Input{StoreType: "ca", Name: "big", DirKind: "dir", Entries: v, Ctx: CtxSpec{Kind: kind, N: us, Deadline: kind == "timeout"}}
+					if err := w.emitLoad(c, n, in, "context-real-timers"); err != nil {
+						return err
+					}
+				}
+			}
 		}
 	}
 	return nil
@@ -905,13 +1139,19 @@ func Run(c *common.Ctx) error {
 	if err := w.random(c, &n, count); err != nil {
 		return err
 	}
+	if err := w.contexts(c, &n); err != nil {
+		return err
+	}
 	names(c)
 	paths(c)
 	c.Note("pool of %d certificates covering all 12 realisable combinations of (CA, cert-sign key usage, signed by own key, issuer=subject) twice, "+
-		"plus a root without key usage, a self-signed certificate without basic constraints and an RSA root; every pool certificate's flags are re-measured with crypto/x509 before use. "+
+		"plus a root without key usage, a self-signed certificate without basic constraints, an RSA root and two different roots with the same subject (key roll-over); every pool certificate's flags are re-measured with crypto/x509 before use. "+
 		"%d real directory trees: systematic types x names x store-directory kinds x 11 entry templates; every certificate alone and in pairs per store type; "+
 		"random loadable stores with 0-3 injected faults (type, name, directory kind, sub-directory, symlink, unparsable, empty file, unacceptable certificate, empty store, retyped); "+
-		"decoy certificates outside the store in half of the trees. For known type + plain name the store is created at root+\"/truststore/x509/\"+type+\"/\"+name by string concatenation. "+
+		"decoy certificates outside the store in half of the trees. "+
+		"Context dimension: stores of 2..5 (thorough 7) files, all good or with one bad entry (garbage, sub-directory, symlink, empty file, unacceptable certificate) at every position, each loaded under a context "+
+		"that ended before the call and under a polling context that turns cancelled / expired at its k-th Err/Done/Deadline call for every k <= 2*files+2; real WithTimeout / WithCancel timers of 0..3000 us on a 12-file store; "+
+		"a quarter of the random stores get a random context; after every load under an ending context the same store is loaded again under Background through the same trust store value and judged as a case of its own. For known type + plain name the store is created at root+\"/truststore/x509/\"+type+\"/\"+name by string concatenation. "+
 		"Store path: dir.X509TrustStoreDir on all listed types x names plus random slash/dot words against the model of path.Join. Name check: all strings of length <=2 over %d boundary characters, length 3 over 12, every code point <= U+024F in three positions, random strings.",
 		len(w.pool), n, 36)
 	return nil
